@@ -91,7 +91,7 @@ def safe_lines(src: str, candidates: Iterable[int]) -> tuple[set[int], dict[int,
 
         def norm(ts: list) -> list:
             # the NEWLINE/NL token that ends line `ln` legitimately moves right; keep only its type
-            return [(t[0],) if t[0] in (tokenize.NL, tokenize.NEWLINE) and t[2][0] == ln else t[:1] + t[1:4] for t in ts]
+            return [(t[0],) if t[0] in (tokenize.NL, tokenize.NEWLINE) and t[2][0] == ln else t for t in ts]
 
         if len(added) != 1 or norm(rest) != norm(base):
             why[ln] = "token structure changes"
